@@ -102,7 +102,7 @@ def gen_cases(tier, rng):
     # owner layer over TWO live sandboxes (each table issues from 1: owners of different sandboxes hold EQUAL tokens):
     # exhaustive histories, then random ones
     o2 = ["g:0:0:P", "g:1:1:P", "g:0:1:P", "g:2:0:P", "m:0:1", "m:1:0", "m:0:2", "m:1:1", "d:0", "d:1", "u:0", "u:1", "l:0", "l:1", "t:0:1", "t:1:1", "t:0:2", "t:1:2"]
-    od2 = 4 if tier == "quick" else 5
+    od2 = 4      # (depth 5 would be ~10^6 histories of two sandbox creations each: the thorough tier adds random histories instead)
     for d in range(2, od2 + 1):
         for ops in itertools.product(o2, repeat=d):
             if sum(1 for o in ops if o.startswith("g")) < 2 or not any(o.startswith("m") for o in ops):
